@@ -6,7 +6,7 @@ BOX   the real Evolvent.GetImage with SYMBOLIC bounds lower < upper (N = 1..3 qu
 RUN   scenarios through the public interface (EXACT) with concrete non-symmetric boxes: every point passed to the objective
       during the global phase is inside the box (arbitrary objective values steer the search).
 REF   the real Process.DoLocalRefinement / Solve(refineSolution=True) with scipy.optimize.minimize replaced by a contract stub
-      (evaluates x0 and up to 2 arbitrary points, inside `bounds` iff bounds are passed): every evaluation and the returned point
+      (evaluates x0 and up to 2 arbitrary points, inside `bounds` iff bounds are passed; arbitrary `success` flag): every evaluation and the returned point
       inside the box, returned value <= best global value, reported value = objective at the reported point, local trial count.
       Whether real scipy honours `bounds` is the stub's contract, tied to scipy 1.x only by the native replays.
 """
@@ -61,7 +61,7 @@ def scenarios(run):
             cfg = dict(base, N=1, r=2.5, seed=sd, kpre=kpre, nsym=3, script=[('iter', kpre + 2)], tags=['global-phase'])
             out.append((cfg, 'global phase N=1: f#%d, %d concrete + 2 arbitrary values' % (sd, kpre)))
             # refinement after the global phase (Solve with refineSolution and an explicit DoLocalRefinement)
-            cfg = dict(base, N=1, r=2.5, seed=sd, kpre=kpre, nsym=2, script=[('solve',)], iters_limit=kpre + 1, refine=True, nm_points=2,
+            cfg = dict(base, N=1, r=2.5, seed=sd, kpre=kpre, nsym=2, script=[('solve',)], iters_limit=kpre + 1, refine=True, nm_points=2, nm_success='sym',
                        tags=['refine-in-solve'])
             out.append((cfg, 'Solve(refineSolution=True) N=1: f#%d, %d concrete + 1 arbitrary value, minimize stub with 2 arbitrary points' % (sd, kpre)))
     # optimum on the boundary of the box: the global phase ends next to an upper / lower face before the refinement starts
